@@ -44,6 +44,28 @@ def emitter_escape_chains(em: Module, project=None) -> list[tuple[FuncInfo, ast.
     return out
 
 
+def function_replace_chain(fi: FuncInfo, project) -> list[tuple[str, str]]:
+    """all constant str.replace steps of a function in source order: `x = y.replace(a, b).replace(c, d)` statements and
+    table-driven loops `for a, b in TABLE: x = x.replace(a, b)` (TABLE folding to a sequence of string pairs)"""
+    steps: list[tuple[int, list[tuple[str, str]]]] = []
+    in_loop: set[int] = set()
+    for n in walk_no_nested(fi.node):
+        if isinstance(n, ast.For) and isinstance(n.target, ast.Tuple) and len(n.target.elts) == 2 and all(isinstance(e, ast.Name) for e in n.target.elts) and len(n.body) == 1:
+            a, b = (e.id for e in n.target.elts)  # type: ignore[union-attr]
+            st = n.body[0]
+            if isinstance(st, ast.Assign) and len(st.targets) == 1 and isinstance(st.targets[0], ast.Name) and isinstance(st.value, ast.Call) and isinstance(st.value.func, ast.Attribute) and st.value.func.attr == "replace" and ast.unparse(st.value.func.value) == st.targets[0].id and [ast.unparse(x) for x in st.value.args] == [a, b]:
+                table = project.try_fold(fi.module, n.iter)
+                if isinstance(table, (tuple, list)) and table and all(isinstance(p, (tuple, list)) and len(p) == 2 and all(isinstance(x, str) for x in p) for p in table):
+                    steps.append((n.lineno, [(p[0], p[1]) for p in table]))
+                    in_loop.add(id(st))
+    for n in walk_no_nested(fi.node):
+        if isinstance(n, (ast.Assign, ast.Return)) and id(n) not in in_loop and isinstance(n.value, ast.Call):
+            rc = replace_chain(n.value)
+            if rc:
+                steps.append((n.lineno, rc[1]))
+    return [p for _ln, ps in sorted(steps, key=lambda x: x[0]) for p in ps]
+
+
 def apply_chain(s: str, chain: list[tuple[str, str]]) -> str:
     for a, b in chain:
         s = s.replace(a, b)
